@@ -174,11 +174,11 @@ class MultiAntennaArray(object):
         self.rng = xp.random.default_rng(seed)
         
         if delays is None:
-            self.delays = xp.zeros(num_antennas)
+            self.delays = xp.zeros(num_antennas, dtype=int)
         else:
             assert len(delays) == num_antennas
             self.delays = xp.array(delays).astype(int)
-        self.max_delay = int(xp.max(delays))
+        self.max_delay = int(xp.max(self.delays))
         
         self.num_antennas = num_antennas
         self.sample_rate = unit_utils.get_value(sample_rate, u.Hz)
@@ -201,7 +201,7 @@ class MultiAntennaArray(object):
                               num_pols=self.num_pols,
                               t_start=self.t_start,
                               seed=int(self.rng.integers(2**31)))
-            antenna.delay = delays[i]
+            antenna.delay = int(self.delays[i])
             self.antennas.append(antenna)
         
         # Create background data streams and link relevant antenna data streams for tracking noise
